@@ -397,3 +397,56 @@ def sample_crystals(ctx, groups, rng, max_atoms=100):
             ctx.count("e2e_no_crystal")
             continue
         yield int(n), made[0], made[1]
+
+
+def broken_groups(broken):
+    """space-group numbers named by a failing table theorem / correspondence mismatch (MatidGen/SG/Gnnn.lean, 'group': n)"""
+    import re
+    blob = json.dumps(broken, default=str)
+    gs = {int(m) for m in re.findall(r"SG[/.]G(\d{3})", blob)}
+    gs |= {int(m) for m in re.findall(r'"group": (\d+)', blob)}
+    gs |= {int(m) for m in re.findall(r"sg(\d{3})_", blob)}
+    return sorted(g for g in gs if 1 <= g <= 230)
+
+
+def directed_crystals(ctx, groups, rng, per_letter=2):
+    """for every broken group: crystals from MatID's tables in the standard setting with EACH letter occupied in turn (plus a
+    general-position orbit of another species and, half of the time, a second special letter), presented as built, with the
+    origin moved by each tabulated normalizer translation, and in a random equivalent description"""
+    import crystals
+    N = norm_tables()
+    W = crystals.wyckoff_tables()
+    for n in groups:
+        letters = [l for l in W[n] if l != "translations"]
+        gen = crystals.general_letter(n)
+        for l in letters:
+            for rep in range(per_letter):
+                occ = [(l, 14, None)]
+                if l != gen:
+                    occ.append((gen, 8, None))
+                if rep % 2 and len(letters) > 2:
+                    l2 = letters[int(rng.integers(0, len(letters)))]
+                    if l2 not in (l, gen):
+                        occ.append((l2, 29, None))
+                made = None
+                for _ in range(5):
+                    made = crystals.table_crystal(n, occ, rng)
+                    if made:
+                        break
+                if not made or len(made[0]) > 200:
+                    ctx.count("directed_no_crystal")
+                    continue
+                atoms = made[0]
+                yield n, atoms, atoms.copy(), {"letter": l, "presentation": "as built"}
+                cell = np.array(atoms.get_cell())
+                for q in N.get(n, []):
+                    t = np.array(q["transformation"], dtype=float)[:3, 3]
+                    if np.allclose(t % 1.0, 0):
+                        continue
+                    a2 = atoms.copy()
+                    a2.translate(-(t @ cell))
+                    a2.wrap()
+                    yield n, atoms, a2, {"letter": l, "presentation": "origin moved by a tabulated normalizer translation %s" % np.round(t, 4).tolist()}
+                a3, desc = crystals.present(atoms, rng)
+                if len(a3) <= 300:
+                    yield n, atoms, a3, {"letter": l, "presentation": desc}
